@@ -9,7 +9,6 @@ import (
 	"github.com/goatcms/goatcore/app/gio"
 	"github.com/goatcms/goatcore/app/modules/commonm/commservices"
 	"github.com/goatcms/goatcore/app/modules/pipelinem/pipservices"
-	"github.com/goatcms/goatcore/varutil"
 	"github.com/goatcms/goatcore/varutil/goaterr"
 	"golang.org/x/crypto/ssh"
 )
@@ -110,31 +109,13 @@ func (sandbox *SSHSandbox) Run(ctx app.IOContext) (err error) {
 func (sandbox *SSHSandbox) initSequence(envs commservices.Environments) (reader io.Reader, err error) {
 	var (
 		initCode = "\nset -e\nset +x\n"
-		values   = envs.All()
-		eofTag   = newEOFTag(values)
 	)
-	for key, value := range values {
-		// the quoted delimiter disables all expansions inside the here-document
-		initCode += key + "=$(cat <<'" + eofTag + "'\n" + value + "\n" + eofTag + "\n)\n"
+	for key, value := range envs.All() {
+		// inside single quotes the shell takes every byte literally (newlines, $, `, \ included);
+		// a single quote is written as '\'' (close, escaped quote, reopen)
+		initCode += key + "='" + strings.ReplaceAll(value, "'", "'\\''") + "'\n"
 		initCode += "export " + key + "\n"
 	}
 	initCode += sandbox.entrypoint + "\n"
 	return strings.NewReader(initCode), nil
-}
-
-// newEOFTag return a random here-document terminator which is not contained in any value
-func newEOFTag(values map[string]string) (eofTag string) {
-	for {
-		eofTag = "EOF" + varutil.RandString(10, varutil.UpperAlphaBytes)
-		collision := false
-		for _, value := range values {
-			if strings.Contains(value, eofTag) {
-				collision = true
-				break
-			}
-		}
-		if !collision {
-			return eofTag
-		}
-	}
 }
